@@ -28,6 +28,7 @@ verus! {
 //@ include prelude/rc_asref.rs
 //@ include prelude/strmap.rs
 //@ include prelude/capstone_mips_ppc.rs
+//@ include units/C02/arith.rs
 //@ mode contracts-only C11
 //@ include units/C11/error_from.rs
 //@ mode contracts-only C15
@@ -80,7 +81,9 @@ use crate::capstone_mp::capstone;
 use crate::capstone_mp::capstone_sys::mips_reg;
 use crate::capstone_mp::capstone_sys::{cs_mips, cs_mips_op, mips_op_mem, mips_op_type};
 use vstd::std_specs::iter::IteratorSpec;
+use crate::c02_arith::*;
 //@ include units/C02/mips_regs.rs
+//@ include units/C02/mips_spec.rs
 //@ include units/C02/mips_sem.rs
 proof fn vf_canary_mips() ensures false { /* padding: tools/verdict.py compares rustc byte offsets with Python character offsets; non-ASCII characters in shared files shift spans by a few bytes, this keeps the shifted span inside the canary ........................................................................ */ }
 } // mod semantics
